@@ -20,7 +20,7 @@ from sim.envs import FAULT_EXCEPTIONS, PZ_OBS_KINDS, ScriptPZ
 from sim.sched import Deadlock, Scheduler, StepCap
 from sim.simmp import NpProxy, SimMP, SimTime
 
-MSGS = ["boom", "rate 100% exceeded", "bad {key} in %s", "ünïcode ✓", "value %d of %(name)s"]
+MSGS = ["boom", "rate 100% exceeded", "bad {key} in %s", "ünïcode ✓", "value %d of %(name)s", "dump:" + "x" * 40000]  # the last one: an exception that carries 40 kB of state
 
 
 class World:
